@@ -20,7 +20,7 @@ static int64_t coord(Reader& r, int mode, int64_t R) {
   switch (mode) {
     case 0: return (int64_t)(int8_t)r.u(1);                                   // tiny: coincidences everywhere
     case 1: return (int64_t)(int16_t)r.u(2);
-    case 2: { int64_t g = R / 8 ? R / 8 : 1; return (int64_t)(int8_t)r.u(1) % 9 * g; }   // lattice
+    case 2: case 4: { int64_t g = R / 8 ? R / 8 : 1; return (int64_t)(int8_t)r.u(1) % 9 * g; }   // lattice
     default: { int64_t v = (int64_t)r.u(8); if (R <= 0) return 0; v %= (R + 1); return v; }
   }
 }
@@ -28,6 +28,13 @@ static Paths64 paths(Reader& r, int mode, int64_t R, int maxp) {
   Paths64 pp; int np = (int)(r.u(1) % (uint64_t)(maxp + 1));
   for (int k = 0; k < np && r.more(); ++k) {
     int nv = (int)(r.u(1) % 14); Path64 p;
+    if (mode == 4) {   // axis-parallel walk on a small lattice: every vertex changes x or y only, alternately
+      int64_t g = R / 8 ? R / 8 : 1; int64_t x = (int64_t)(r.u(1) % 9) * g, y = (int64_t)(r.u(1) % 9) * g; bool horz = r.u(1) & 1;
+      p.emplace_back(x, y);
+      for (int j = 1; j < nv; ++j) { int64_t v = (int64_t)(r.u(1) % 9) * g; if (horz) x = v; else y = v; p.emplace_back(x, y); horz = !horz; }
+      pp.push_back(std::move(p));
+      continue;
+    }
     for (int j = 0; j < nv; ++j) { int64_t x = coord(r, mode, R), y = coord(r, mode, R); if (mode == 3) { if (r.u(1) & 1) x = -x; if (r.u(1) & 1) y = -y; } p.emplace_back(x, y); }
     pp.push_back(std::move(p));
   }
@@ -37,7 +44,7 @@ static Paths64 paths(Reader& r, int mode, int64_t R, int maxp) {
 static Case decode(const uint8_t* data, size_t size) {
   Reader r{ data, size };
   Case c; int op = (int)(r.u(1) % NOPS); c.seti("op", op);
-  int mode = (int)(r.u(1) % 4);
+  int mode = (int)(r.u(1) % 5);
   bool boolean = is_boolean_family(op);
   int maxexp = boolean ? 62 : 40;
   bool isD = (op == BOOLD_PATHS || op == BOOLD_TREE || op == HELPERSD || op == INFLATED || op == RECTD || op == MINKD || op == UTILD || op == EXPORTD);
@@ -52,7 +59,7 @@ static Case decode(const uint8_t* data, size_t size) {
   c.setd("delta", delta);
   static const double miters[] = { 0.0, 0.5, 1.0, 2.0, 5.0, 100.0 }; c.setd("miter", miters[r.u(1) % 6]);
   static const double arcs[] = { 0.0, 0.0, 0.25, 1.0, 1e9, 1e-13 }; double arc = arcs[r.u(1) % 6];
-  if (arc > 0 && std::fabs(delta) / arc > 1e6) arc = std::fabs(delta) / 1e6;
+  if (arc > 0 && std::fabs(delta) / arc > 1e5) arc = std::fabs(delta) / 1e5;   // <= ~700 steps per circle: a 600-byte input must stay far below the per-input time limit even under ASan on a loaded machine
   c.setd("arc", arc);
   static const double epss[] = { 0.0, 0.5, 1.0, 2.5, 1e6 }; c.setd("eps", epss[r.u(1) % 5]);
   c.seti("closed", (long long)(r.u(1) & 1)); c.seti("variant", (long long)(r.u(1) % 8)); c.seti("usecb", (long long)(r.u(1) & 1));
